@@ -35,6 +35,9 @@ impl<const I: u8> CurveConfig for Cfg<I> {
     const COFACTOR_INV: SF = <SF as Field>::ONE;
 }
 
+/// filler byte of the second half of an uncompressed toy group element
+pub const UNCOMPRESSED_PAD: u8 = 0xEE;
+
 macro_rules! common {
     ($T:ident) => {
         impl<const I: u8> fmt::Display for $T<I> {
@@ -58,10 +61,18 @@ macro_rules! common {
                 w: W,
                 c: Compress,
             ) -> Result<(), SerializationError> {
-                self.0.serialize_with_mode(w, c)
+                // like a curve point, the uncompressed form is twice as long as the compressed one: the
+                // exponent is followed by a constant 32-byte block (value-independent, so that hashing an
+                // uncompressed element concretises nothing); validation checks the block
+                let mut w = w;
+                self.0.serialize_with_mode(&mut w, c)?;
+                if c == Compress::No {
+                    w.write_all(&[UNCOMPRESSED_PAD; 32]).map_err(SerializationError::IoError)?;
+                }
+                Ok(())
             }
             fn serialized_size(&self, c: Compress) -> usize {
-                self.0.serialized_size(c)
+                self.0.serialized_size(c) + if c == Compress::No { 32 } else { 0 }
             }
         }
         impl<const I: u8> CanonicalDeserialize for $T<I> {
@@ -70,7 +81,16 @@ macro_rules! common {
                 c: Compress,
                 v: Validate,
             ) -> Result<Self, SerializationError> {
-                SF::deserialize_with_mode(r, c, v).map($T)
+                let mut r = r;
+                let x = SF::deserialize_with_mode(&mut r, c, v)?;
+                if c == Compress::No {
+                    let mut pad = [0u8; 32];
+                    r.read_exact(&mut pad).map_err(SerializationError::IoError)?;
+                    if v == Validate::Yes && pad != [UNCOMPRESSED_PAD; 32] {
+                        return Err(SerializationError::InvalidData);
+                    }
+                }
+                Ok($T(x))
             }
         }
         impl<const I: u8> Distribution<$T<I>> for Standard {
